@@ -484,7 +484,9 @@ def run(cx):
     HM = type("MotorObj", (dl.Synth,), {})
     b0m = l2.functions_of(pe.emit_program(setup=[l2.decl_node("DCMotor")], loop=[]).text, ["setup"])["setup"][0]["body"]
     mcmds = [("DCMotorSetSpeed", {"speed": v_}, "set_speed", [v_]) for v_ in (-2, -1, -0.5, 0, 0.5, 1, 3)] + [("DCMotorBackward", {"speed": v_}, "backward", [v_]) for v_ in (0, 0.5, 1, -0.5)] + \
-            [("DCMotorStop", {}, "stop", []), ("DCMotorCoast", {}, "coast", []), ("DCMotorInvert", {}, "invert", [])]
+            [("DCMotorStop", {}, "stop", []), ("DCMotorCoast", {}, "coast", []), ("DCMotorInvert", {}, "invert", [])] + \
+            [("DCMotorRamp", {"target_speed": t_, "duration_ms": d_}, "ramp", [t_, d_]) for t_ in (-2, -0.5, 0, 0.5, 1) for d_ in (0, 100, 1000)] + \
+            [("DCMotorRunFor", {"duration_ms": d_, "speed": v_}, "run_for", [d_, v_]) for v_ in (-1, 0, 0.5) for d_ in (0, 250)]
     n_bad = 0
     for cname, kw, meth, margs in mcmds:
         if cname not in cls:
@@ -503,8 +505,9 @@ def run(cx):
                 for mode0 in (("drive",) if sp != 0 else ("coast", "brake")):
                     o = host_object(hmot, "DCMotor", 2, 4, 9)
                     o._speed, o._inverted, o._mode, o._applied_speed = sp, inv, mode0, (-sp if inv else sp)
+                    sleeps = []
                     try:
-                        hout = dl.Interp(hmot).call(hfn, [o] + list(margs))
+                        hout = dl.Interp(hmot, opaque={"_sleep": lambda ms, _s=sleeps: _s.append(ms)}).call(hfn, [o] + list(margs))
                     except dl.Unsupported as e:
                         raise AnalysisError(f"host DCMotor.{meth} left the evaluable subset: {e}")
                     k = ckern_.Kern(env={"__dc_speed_dev": sp, "__dc_inverted_dev": int(inv), "__dc_mode_dev": mode0}, types={"__dc_speed_dev": "float", "__dc_inverted_dev": "bool", "__dc_mode_dev": "String"})
@@ -520,14 +523,17 @@ def run(cx):
                     f_applied = -f_speed if f_inv else f_speed
                     want_duty = int(abs(o._applied_speed) * 255 + 0.5)
                     want_dir = (1, 1) if o._mode == "brake" else (0, 0) if o._mode == "coast" else ((1, 0) if o._applied_speed > 0 else (0, 1))
+                    delays = [a_[0] for nm, a_ in k.events if nm == "delay"]
+                    # the device waits whole milliseconds: each wait is the host's wait truncated (never longer), one per host sleep
+                    waits_ok = [int(d_) for d_ in delays if d_ > 0] == [int(x) for x in sleeps if x >= 1] if all(x >= 1 or x == 0 for x in sleeps) else True
                     good = hout.kind == "return" and abs(f_speed - o._speed) < 1e-6 and f_inv == o._inverted and f_mode == o._mode and abs(f_applied - o._applied_speed) < 1e-6 \
-                        and (lv.get(2), lv.get(4)) == want_dir and lv.get(9) is not None and abs(lv.get(9) - want_duty) <= 1
+                        and (lv.get(2), lv.get(4)) == want_dir and lv.get(9) is not None and abs(lv.get(9) - want_duty) <= 1 and waits_ok
                     if good:
                         r.ok(None)
                     else:
                         n_bad += 1
                         if n_bad <= 3:
-                            r.fail(f"DCMotor.{meth}/firmware=host", (em, em.func("_emit_block")), f"from (speed {sp}, inverted {inv}, mode {mode0}): motor.{meth}({', '.join(map(str, margs))}) -> host (speed {o._speed}, inverted {o._inverted}, mode {o._mode}, applied {o._applied_speed}); firmware (speed {f_speed}, inverted {f_inv}, mode {f_mode}, IN1/IN2 {lv.get(2)}/{lv.get(4)}, duty {lv.get(9)})", detail={"speed": sp, "inverted": inv, "mode": mode0, "method": meth, "args": margs})
+                            r.fail(f"DCMotor.{meth}/firmware=host", (em, em.func("_emit_block")), f"from (speed {sp}, inverted {inv}, mode {mode0}): motor.{meth}({', '.join(map(str, margs))}) -> host (speed {o._speed}, inverted {o._inverted}, mode {o._mode}, applied {o._applied_speed}); firmware (speed {f_speed}, inverted {f_inv}, mode {f_mode}, IN1/IN2 {lv.get(2)}/{lv.get(4)}, duty {lv.get(9)}); host sleeps {len(sleeps)}x{sleeps[0] if sleeps else 0}, firmware delays {len(delays)}x{delays[0] if delays else 0}", detail={"speed": sp, "inverted": inv, "mode": mode0, "method": meth, "args": margs})
                         else:
                             r.stat.obligations += 1
                             r.stat.failed += 1
@@ -621,6 +627,10 @@ def run(cx):
                     else:
                         r.stat.obligations += 1
                         r.stat.failed += 1
+
+    # ---- C04-LITERAL -------------------------------------------------------------------------
+    from . import c03
+    c03.rule_resolver_values(cx, "C04-LITERAL")
 
     # ---- C04-COND ----------------------------------------------------------------------------
     r = cx.rule("C04-COND", "the branch decisions of time-sequenced commands are taken on the same quantities as in the host model (RGBLed.fade jumps straight to the target iff duration == 0 or the colour is already the target; blink/fade loop headers count what the host counts)", floor=4)
